@@ -267,62 +267,84 @@ impl Tzif {
     /// be provided. This time does NOT exist due to the +1 jump from
     /// 02:00 -> 03:00 (but of course it does as a nanosecond value).
     pub fn v2_estimate_tz_pair(&self, seconds: &Seconds) -> TemporalResult<LocalTimeRecordResult> {
-        // We need to estimate a tz pair.
-        // First search the ambiguous seconds.
         let db = self.get_data_block2()?;
-        let b_search_result = db.transition_times.binary_search(seconds);
 
-        let estimated_idx = match b_search_result {
-            // TODO: Double check returning early here with tests.
-            Ok(idx) => return Ok(get_local_record(db, idx).into()),
-            Err(idx) if idx == 0 => {
-                return Ok(LocalTimeRecordResult::Single(
-                    get_local_record(db, idx).into(),
-                ))
-            }
-            Err(idx) => {
-                if db.transition_times.len() <= idx {
-                    // The transition time provided is beyond the length of
-                    // the available transition time, so the time zone is
-                    // resolved with the POSIX tz string.
-                    return resolve_posix_tz_string(
-                        self.posix_tz_string()
-                            .ok_or(TemporalError::general("Could not resolve time zone."))?,
-                        seconds.0,
-                    );
-                }
-                idx
-            }
+        // The local time is searched as if it were a UTC time. The instants it can denote are
+        // less than two days away from that estimate, so only the few intervals around it can
+        // contain one of them.
+        let estimated_idx = match db.transition_times.binary_search(seconds) {
+            Ok(idx) => idx + 1,
+            Err(idx) => idx,
         };
 
-        // The estimated index will be off based on the amount missing
-        // from the lack of offset.
-        //
-        // This means that we may need (idx, idx - 1) or (idx - 1, idx - 2)
-        let record = get_local_record(db, estimated_idx);
-        let record_minus_one = get_local_record(db, estimated_idx - 1);
+        if estimated_idx == 0 {
+            return Ok(LocalTimeRecordResult::Single(
+                get_local_record(db, estimated_idx).into(),
+            ));
+        }
 
-        // Q: Potential shift bugs with odd historical transitions? This
-        //
-        // Shifts the 2 rule window for positive zones that would have returned
-        // a different idx.
-        let shift_window = usize::from((record.utoff + record_minus_one.utoff) >= Seconds(0));
+        // Interval `k` is in force from transition `k - 1` (inclusive) up to transition `k`
+        // (exclusive) with the local time type of transition `k - 1`; interval 0 precedes the
+        // first transition. A record is a candidate exactly when the instant it assigns to the
+        // local time lies inside its own interval.
+        let transition_count = db.transition_times.len();
+        let mut first: Option<LocalTimeRecord> = None;
+        let mut second: Option<LocalTimeRecord> = None;
+        let mut interval = estimated_idx.saturating_sub(2);
+        while interval <= estimated_idx + 2 && interval < transition_count {
+            let record = get_local_record(db, interval.saturating_sub(1));
+            let instant = seconds.0 - record.utoff.0;
+            let after_start = interval == 0 || db.transition_times[interval - 1].0 <= instant;
+            let before_end = instant < db.transition_times[interval].0;
+            if after_start && before_end {
+                push_candidate(&mut first, &mut second, record.into());
+            }
+            interval += 1;
+        }
 
-        let new_idx = estimated_idx - shift_window;
+        // Beyond the last transition the POSIX tz string is in force; what it proposes counts
+        // only when the instant it assigns lies at or after that last transition.
+        if transition_count <= estimated_idx + 2 {
+            let last_transition = db.transition_times[transition_count - 1].0;
+            let posix_result = match self.posix_tz_string() {
+                Some(posix_tz_string) => resolve_posix_tz_string(posix_tz_string, seconds.0)?,
+                None if first.is_none() => {
+                    return Err(TemporalError::general("Could not resolve time zone."))
+                }
+                None => LocalTimeRecordResult::Empty,
+            };
+            match posix_result {
+                LocalTimeRecordResult::Empty => {}
+                LocalTimeRecordResult::Single(record) => {
+                    if last_transition <= seconds.0 - record.offset {
+                        push_candidate(&mut first, &mut second, record);
+                    }
+                }
+                LocalTimeRecordResult::Ambiguous { std, dst } => {
+                    if last_transition <= seconds.0 - std.offset {
+                        push_candidate(&mut first, &mut second, std);
+                    }
+                    if last_transition <= seconds.0 - dst.offset {
+                        push_candidate(&mut first, &mut second, dst);
+                    }
+                }
+            }
+        }
 
-        let current_transition = db.transition_times[new_idx];
-        let current_diff = *seconds - current_transition;
-
-        let initial_record = get_local_record(db, new_idx - 1);
-        let next_record = get_local_record(db, new_idx);
-
-        // Adjust for offset inversion from northern/southern hemisphere.
-        let offset_range = offset_range(initial_record.utoff.0, next_record.utoff.0);
-        match offset_range.contains(&current_diff.0) {
-            true if next_record.is_dst => Ok(LocalTimeRecordResult::Empty),
-            true => Ok((next_record, initial_record).into()),
-            false if current_diff <= initial_record.utoff => Ok(initial_record.into()),
-            false => Ok(next_record.into()),
+        match (first, second) {
+            // The standard-time record is reported first when the two differ in their DST flag.
+            (Some(earlier), Some(later)) if earlier.is_dst && !later.is_dst => {
+                Ok(LocalTimeRecordResult::Ambiguous {
+                    std: later,
+                    dst: earlier,
+                })
+            }
+            (Some(earlier), Some(later)) => Ok(LocalTimeRecordResult::Ambiguous {
+                std: earlier,
+                dst: later,
+            }),
+            (Some(record), None) => Ok(record.into()),
+            _ => Ok(LocalTimeRecordResult::Empty),
         }
     }
 }
@@ -335,6 +357,20 @@ fn get_timezone_offset(db: &DataBlock, idx: usize) -> TimeZoneOffset {
     TimeZoneOffset {
         transition_epoch: db.transition_times.get(idx).map(|s| s.0),
         offset: offset.utoff.0,
+    }
+}
+
+/// Keeps the first two candidate records found for a local time.
+#[inline]
+fn push_candidate(
+    first: &mut Option<LocalTimeRecord>,
+    second: &mut Option<LocalTimeRecord>,
+    record: LocalTimeRecord,
+) {
+    if first.is_none() {
+        *first = Some(record);
+    } else if second.is_none() {
+        *second = Some(record);
     }
 }
 
